@@ -47,10 +47,11 @@ def pipeline(ctx, cid, x, y, strat, n, kw, append, rule, info):
             wv = Weaver(x, y)
             if append is not None:
                 wv.append_one_sample(make_periodic=append)
+            n_arg = np.int64(n) if (len(x) + n) % 4 == 0 else n      # a factor taken from a NumPy computation
             if strat == "ExpAdaptiveRFA" and not kw:
-                wv.recreate_from_average(n)                    # documented default strategy
+                wv.recreate_from_average(n_arg)                # documented default strategy
             else:
-                wv.recreate_from_average(n, rfa_class=R.cls(strat), **kw)
+                wv.recreate_from_average(n_arg, rfa_class=R.cls(strat), **kw)
             xs0, ys0 = wv.get()
             ys0 = np.array(ys0, dtype=float)
             wv.integral_match(target_function_integral_method=rule)
